@@ -59,8 +59,11 @@ def get_unit_and_comment_from_assignment(
             try:
                 # Try to parse the unit
                 unit = units.ureg(potential_unit.text)
-            except (units.pint.UndefinedUnitError, AttributeError):
-                # Not a proper unit so it's a comment
+            except Exception:
+                # Not a proper unit so it's a comment. Free text can make pint raise all
+                # kinds of exceptions (UndefinedUnitError, DefinitionSyntaxError, TokenError,
+                # ZeroDivisionError for "1/0", ...) and a comment must never stop the model
+                # from loading
                 return None, atoms.Comment(potential_unit.text)
             else:
                 if isinstance(unit, units.pint.Quantity):
